@@ -549,6 +549,175 @@ def module_function(src, name):
     raise TranslateError("function %s not found" % name)
 
 
+def _plain_module(src, names, classes):
+    """fail closed on module-level code that changes what the functions / classes we read mean:
+    decorated or doubly defined functions, rebinding of their names, `Class.attr = ...` or
+    setattr(Class, ...) patches"""
+    tree = ast.parse(src)
+    seen = {}
+    for n in tree.body:
+        if isinstance(n, (ast.FunctionDef, ast.AsyncFunctionDef)) and n.name in names:
+            if n.decorator_list:
+                raise TranslateError("function %s is decorated (line %d)" % (n.name, n.lineno))
+            if n.name in seen:
+                raise TranslateError("function %s is defined twice" % n.name)
+            seen[n.name] = n.lineno
+    for n in ast.walk(tree):
+        tg = []
+        if isinstance(n, ast.Assign):
+            tg = n.targets
+        elif isinstance(n, (ast.AugAssign, ast.AnnAssign)):
+            tg = [n.target]
+        for t in tg:
+            if isinstance(t, ast.Attribute) and isinstance(t.value, ast.Name) and \
+                    t.value.id in classes:
+                raise TranslateError("%s.%s is rebound (line %d)" % (t.value.id, t.attr,
+                                                                      n.lineno))
+        if isinstance(n, ast.Call) and isinstance(n.func, ast.Name) and \
+                n.func.id in ("setattr", "delattr") and n.args and \
+                isinstance(n.args[0], ast.Name) and n.args[0].id in classes:
+            raise TranslateError("%s(%s, ...) (line %d)" % (n.func.id, n.args[0].id, n.lineno))
+    for n in tree.body:
+        tg = n.targets if isinstance(n, ast.Assign) else []
+        for t in tg:
+            if isinstance(t, ast.Name) and t.id in set(names) | set(classes):
+                raise TranslateError("module rebinds %s (line %d)" % (t.id, n.lineno))
+
+
+PATH_METHODS = {"findPlasmaProfile", "findPlasmaProfilePoint", "_intermediatePressureResults",
+                "_getNextPressure", "deltaToTmunu", "plasmaVelocity", "temperatureProfileEqLHS",
+                "wallPressure"}
+
+
+def call_site_facts(src, cls_name="EOM"):
+    """Facts about the call path wallPressure -> _getNextPressure -> _intermediatePressureResults
+    -> findPlasmaProfile -> findPlasmaProfilePoint, extracted from the AST and checked fail
+    closed (TranslateError):
+      * every `self.m(...)` in the class passes, in each POSITION, either something that is not
+        the name of a parameter of m, or exactly the parameter of that position (a variable
+        called Tminus is never handed over as Tplus); keywords name existing parameters;
+      * findPlasmaProfile is called from exactly one place, guarded by `X is None or Y is None`
+        on the two optional profile inputs, with boltzmannResults.Deltas as the moments;
+      * wallPressure freezes the profiles only under `not self.forceEnergyConservation`, whose
+        constructor default is True and which is stored unchanged."""
+    pyrx.check_plain_source(src, classes=[cls_name])
+    tree = ast.parse(src)
+    cls = [n for n in tree.body if isinstance(n, ast.ClassDef) and n.name == cls_name]
+    if len(cls) != 1:
+        raise TranslateError("class %s not found exactly once" % cls_name)
+    cls = cls[0]
+    fns = {f.name: f for f in cls.body if isinstance(f, ast.FunctionDef)}
+    facts = dict(calls=0)
+    for f in fns.values():
+        for c in ast.walk(f):
+            if not (isinstance(c, ast.Call) and isinstance(c.func, ast.Attribute) and
+                    isinstance(c.func.value, ast.Name) and c.func.value.id == "self" and
+                    c.func.attr in fns):
+                continue
+            g = fns[c.func.attr]
+            if g.args.vararg or g.args.kwarg or g.args.posonlyargs:
+                continue
+            params = [a.arg for a in g.args.args][1:]
+            allp = params + [a.arg for a in g.args.kwonlyargs]
+            facts["calls"] += 1
+            starred = any(isinstance(a, ast.Starred) for a in c.args) or any(
+                k.arg is None for k in c.keywords)
+            if starred and g.name not in PATH_METHODS:
+                continue
+            if len(c.args) > len(params) or starred:
+                raise TranslateError("call of %s at line %d: positional arguments" % (
+                    g.name, c.lineno))
+            for i, a in enumerate(c.args):
+                if isinstance(a, ast.Name) and a.id in allp and params[i] != a.id:
+                    raise TranslateError(
+                        "call of %s at line %d passes the variable %s as parameter %s" % (
+                            g.name, c.lineno, a.id, params[i]))
+            for k in c.keywords:
+                if k.arg is None or k.arg not in allp:
+                    raise TranslateError("call of %s at line %d: keyword %s" % (
+                        g.name, c.lineno, k.arg))
+                if isinstance(k.value, ast.Name) and k.value.id in allp and k.value.id != k.arg:
+                    raise TranslateError(
+                        "call of %s at line %d passes the variable %s as parameter %s" % (
+                            g.name, c.lineno, k.value.id, k.arg))
+    # the single call of findPlasmaProfile
+    sites = []
+    for f in fns.values():
+        for n in ast.walk(f):
+            if isinstance(n, ast.If):
+                for c in ast.walk(ast.Module(body=n.body, type_ignores=[])):
+                    if isinstance(c, ast.Call) and ast.unparse(c.func) == "self.findPlasmaProfile":
+                        sites.append((f.name, n, c))
+    allcalls = [c for f in fns.values() for c in ast.walk(f) if isinstance(c, ast.Call) and
+                ast.unparse(c.func) == "self.findPlasmaProfile"]
+    if len(allcalls) != 1 or len(sites) < 1:
+        raise TranslateError("findPlasmaProfile must be called from exactly one guarded place "
+                             "(found %d calls)" % len(allcalls))
+    fname, guard, call = sites[-1]          # innermost enclosing If comes last in walk order
+    inner = [s_ for s_ in sites if s_[2] is call]
+    guard = inner[-1][1]
+    gp = [a.arg for a in fns[fname].args.args]
+    t = guard.test
+    ok = isinstance(t, ast.BoolOp) and isinstance(t.op, ast.Or) and len(t.values) == 2 and all(
+        isinstance(v, ast.Compare) and len(v.ops) == 1 and isinstance(v.ops[0], ast.Is) and
+        isinstance(v.left, ast.Name) and v.left.id in gp and
+        isinstance(v.comparators[0], ast.Constant) and v.comparators[0].value is None
+        for v in t.values) and len({v.left.id for v in t.values}) == 2
+    if not ok:
+        raise TranslateError("guard of the findPlasmaProfile call (line %d): %s" % (
+            guard.lineno, ast.unparse(t)))
+    if len(call.args) != 8 or call.keywords or not (
+            isinstance(call.args[5], ast.Attribute) and call.args[5].attr == "Deltas"):
+        raise TranslateError("arguments of the findPlasmaProfile call (line %d)" % call.lineno)
+    facts["findPlasmaProfile_call"] = [ast.unparse(a) for a in call.args]
+    facts["findPlasmaProfile_guard"] = ast.unparse(t)
+    # the freeze guard of wallPressure
+    wp = fns.get("wallPressure")
+    if wp is None:
+        raise TranslateError("wallPressure not found")
+    frozen = 0
+    for n in ast.walk(wp):
+        if isinstance(n, ast.If):
+            stores = {x.id for st in n.body for x in ast.walk(st)
+                      if isinstance(x, ast.Name) and isinstance(x.ctx, ast.Store)}
+            if stores & {"temperatureProfile", "velocityProfile"}:
+                frozen += 1
+                if ast.unparse(n.test) != "not self.forceEnergyConservation" or n.orelse:
+                    raise TranslateError("wallPressure freezes the plasma profile under `%s` "
+                                         "(line %d)" % (ast.unparse(n.test), n.lineno))
+    for n in ast.walk(wp):
+        if isinstance(n, ast.Assign) and not isinstance(n.value, ast.Constant):
+            for t_ in n.targets:
+                if isinstance(t_, ast.Name) and t_.id in ("temperatureProfile",
+                                                          "velocityProfile"):
+                    par = [m for m in ast.walk(wp) if isinstance(m, ast.If) and n in m.body]
+                    if not par:
+                        raise TranslateError("wallPressure assigns %s outside the freeze "
+                                             "guard (line %d)" % (t_.id, n.lineno))
+    facts["freeze_guards"] = frozen
+    init = fns.get("__init__")
+    dflt = None
+    if init is not None:
+        a = init.args
+        names = [x.arg for x in a.args]
+        if "forceEnergyConservation" in names:
+            k = names.index("forceEnergyConservation") - (len(names) - len(a.defaults))
+            if 0 <= k < len(a.defaults):
+                dflt = a.defaults[k]
+        st = [n for n in ast.walk(init) if isinstance(n, ast.Assign) and
+              ast.unparse(n.targets[0]) == "self.forceEnergyConservation"]
+        if len(st) != 1 or ast.unparse(st[0].value) != "forceEnergyConservation":
+            raise TranslateError("__init__ does not store forceEnergyConservation unchanged")
+    if not (isinstance(dflt, ast.Constant) and dflt.value is True):
+        raise TranslateError("default of forceEnergyConservation is not True")
+    stores = [n for f in fns.values() if f.name != "__init__" for n in ast.walk(f)
+              if isinstance(n, ast.Attribute) and isinstance(n.ctx, ast.Store) and
+              n.attr == "forceEnergyConservation"]
+    if stores:
+        raise TranslateError("forceEnergyConservation is reassigned (line %d)" % stores[0].lineno)
+    return facts
+
+
 PRELUDE = """From Coq Require Import Reals List.
 From WG Require Import Lib.NumpySem Lib.Plasma Lib.PlasmaLoop.
 Import ListNotations.
@@ -558,6 +727,11 @@ Local Open Scope R_scope.
 
 def generate(src_eom, src_helpers, src_hydro):
     spans = {}
+    _plain_module(src_helpers, ["gammaSq"], [])
+    _plain_module(src_eom, [], ["EOM"])
+    _plain_module(src_hydro, [], ["Hydrodynamics"])
+    pyrx.check_plain_source(src_hydro, classes=["Hydrodynamics"])
+    facts = call_site_facts(src_eom)
     gdef, sp = module_function(src_helpers, "gammaSq")
     spans["gammaSq"] = ("helpers.py",) + sp
     tr = PlasmaTranslator(src_eom, "EOM", EOM_EXT,
@@ -579,7 +753,7 @@ def generate(src_eom, src_helpers, src_hydro):
            "(* generated from src/WallGo/equationOfMotion.py *)",
            tr.header(extra_vars=EOM_ORACLES)] + defs + [
         "(* generated from src/WallGo/hydrodynamics.py *)", th.header(), hdef]
-    info = dict(spans=spans, ignored=tr.ignored, asserts=tr.asserts)
+    info = dict(spans=spans, ignored=tr.ignored, asserts=tr.asserts, facts=facts)
     return "\n".join(out) + "\n", info
 
 
